@@ -1,6 +1,6 @@
 #!/bin/bash
 # runs every registered quick (or $1=thorough) check on the current tree; prints one line per property
-cd /verif
+cd "$(dirname "$0")/.."
 T=${1:-quick}
 for p in $(python3 -c "import json; print(' '.join(c['property_id'] for c in json.load(open('MANIFEST.json'))['checks']))"); do
   ./check $p --tier $T > /tmp/all-$p.log 2>&1; rc=$?
